@@ -91,7 +91,7 @@ def _case(draw, tier):
         (1, ops.REOPEN))
     n = 30 if tier == "quick" else 50
     return {"cfg": cfg, "contents": cs, "docs": docs, "ops": draw(ops.history(ops.on_instances(op), 1, n)),
-            "root_via": draw(st.sampled_from([None] * 7 + ["symlink"]))}
+            "root_via": draw(st.sampled_from([None] * 6 + ["symlink", "relative"]))}
 
 
 def strategy(tier):
